@@ -286,6 +286,8 @@ def bind_sizes(interp, sp, val, sizes, what):
         for k, v in sp.attrs.items():
             if k in val.attrs:
                 bind_sizes(interp, v, val.attrs[k], sizes, what)
+    elif isinstance(sp, S.Callable) and isinstance(val, SCallable):
+        bind_sizes(interp, sp.ret, val.ret, sizes, what)
     elif isinstance(sp, S.Size):
         if sp.name not in sizes:
             sizes[sp.name] = val
@@ -447,6 +449,12 @@ def discharge(ob, timeout_ms=10000, extra=(), nice=None, sizes=None):
     t0 = time.time()
     ob.backend = 'z3-' + z3.get_version_string()
     qf = ob.hyps(quantified=False) + list(extra)
+    # a NONLINEAR real equation is tried as a rational-function identity first (z3 would burn its budget on it)
+    if _nonlinear_real_equation(ob.goal) and poly_identity(ob, qf):
+        ob.status = 'discharged'
+        ob.backend = 'sympy-%s polynomial identity + %s (divisors non-zero)' % (__import__('sympy').__version__, ob.backend)
+        ob.seconds = time.time() - t0
+        return ob.status
     # small portfolio: z3 verdict times vary a lot with the random seed on nonlinear queries
     r1 = z3.unknown
     s1 = None
@@ -528,6 +536,38 @@ def discharge(ob, timeout_ms=10000, extra=(), nice=None, sizes=None):
     return ob.status
 
 
+def _nonlinear_real_equation(goal, budget=400):
+    """the goal's consequent is an equation between reals containing a division or a product of two non-numeral terms"""
+    g = goal
+    for _ in range(6):
+        if z3.is_implies(g):
+            g = g.arg(1)
+        elif z3.is_or(g):
+            eqs = [l for l in g.children() if z3.is_eq(l) and z3.is_real(l.arg(0))]
+            if len(eqs) != 1:
+                return False
+            g = eqs[0]
+        else:
+            break
+    if not (z3.is_eq(g) and z3.is_real(g.arg(0))):
+        return False
+    n = [0]
+
+    def walk(e):
+        n[0] += 1
+        if n[0] > budget or not z3.is_app(e):
+            return False
+        k = e.decl().kind()
+        if k == z3.Z3_OP_DIV:
+            return True
+        if k == z3.Z3_OP_MUL and sum(1 for c in e.children() if not (z3.is_rational_value(c) or z3.is_int_value(c))) >= 2:
+            return True
+        if k in (z3.Z3_OP_ADD, z3.Z3_OP_SUB, z3.Z3_OP_MUL, z3.Z3_OP_UMINUS, z3.Z3_OP_TO_REAL):
+            return any(walk(c) for c in e.children())
+        return False
+    return walk(g.arg(0)) or walk(g.arg(1))
+
+
 def poly_identity(ob, qf, timeout_ms=4000):
     """Second back end for goals that are an equation between rational functions of real terms (interpolation /
     Lagrange algebra): z3's nlsat often times out on such identities with many variables.  Sound decision:
@@ -540,9 +580,73 @@ def poly_identity(ob, qf, timeout_ms=4000):
         import sympy
     except Exception:
         return False
+    # SymPy normalisation can blow up on large expressions: hard wall-clock budget (worker processes run this in their
+    # main thread, so an interval timer is available)
+    import signal
+    import threading
+
+    class _Budget(Exception):
+        pass
+
+    def _raise_budget(signum, frame):
+        raise _Budget()
+    use_timer = threading.current_thread() is threading.main_thread()
+    if use_timer:
+        old_handler = signal.signal(signal.SIGALRM, _raise_budget)
+        signal.setitimer(signal.ITIMER_REAL, 20.0)
+    try:
+        return _poly_identity(ob, qf, timeout_ms, sympy)
+    except _Budget:
+        ob.info['identity'] = 'budget exhausted'
+        return False
+    finally:
+        if use_timer:
+            signal.setitimer(signal.ITIMER_REAL, 0)
+            signal.signal(signal.SIGALRM, old_handler)
+
+
+def _poly_identity(ob, qf, timeout_ms, sympy):
+    # first with every division by a non-trivial divisor abstracted to an indeterminate (sound: a generalisation; it
+    # keeps e.g. 1/(g[k+1]-g[k]) but hides the Akima weight quotients the identity does not depend on), then in full
+    for abstract_div in (True, False):
+        if _poly_identity_core(ob, qf, timeout_ms, sympy, abstract_div):
+            return True
+    return False
+
+
+_IDENTITY_CACHE = {}
+
+
+def _term_size(e, cap=12):
+    n = 1
+    for c in e.children():
+        n += _term_size(c, cap)
+        if n > cap:
+            break
+    return n
+
+
+def _poly_identity_core(ob, qf, timeout_ms, sympy, abstract_div):
     goal = ob.goal
-    while z3.is_implies(goal):
-        goal = goal.arg(1)
+    ants = []
+    while True:
+        if z3.is_implies(goal):
+            a_ = goal.arg(0)
+            ants.extend(a_.children() if z3.is_and(a_) else [a_])
+            goal = goal.arg(1)
+            continue
+        if z3.is_or(goal):
+            # (not a1) or (not a2) or (A == B): a clause `implies(a, A == B)` is translated to this form
+            lits = goal.children()
+            eqs = [l for l in lits if z3.is_eq(l) and z3.is_real(l.arg(0))]
+            negs = [l for l in lits if z3.is_not(l)]
+            if len(eqs) == 1 and len(negs) == len(lits) - 1:
+                for l in negs:
+                    a_ = l.arg(0)
+                    ants.extend(a_.children() if z3.is_and(a_) else [a_])
+                goal = eqs[0]
+                continue
+        break
     if not (z3.is_eq(goal) and z3.is_real(goal.arg(0)) and z3.is_real(goal.arg(1))):
         return False
     syms = {}
@@ -571,13 +675,14 @@ def poly_identity(ob, qf, timeout_ms=4000):
             return r
         if k == z3.Z3_OP_UMINUS:
             return -conv(ch[0])
-        if k == z3.Z3_OP_DIV:
+        if k == z3.Z3_OP_DIV and not (abstract_div and _term_size(ch[1]) > 6):
             divisors.append(ch[1])
             return conv(ch[0]) / conv(ch[1])
         if k == z3.Z3_OP_TO_REAL:
             return conv(ch[0])
-        if k == z3.Z3_OP_UNINTERPRETED:
-            # an indeterminate per distinct term (arguments must themselves be ground index terms)
+        if z3.is_real(e) or z3.is_int(e):
+            # any other real-valued term (uninterpreted application, if-then-else, ...) is an indeterminate: proving the
+            # identity for ALL values of the indeterminate proves it for this term
             key = e.sexpr()
             if key not in syms:
                 syms[key] = sympy.Symbol('v%d' % len(syms))
@@ -607,13 +712,50 @@ def poly_identity(ob, qf, timeout_ms=4000):
             continue
         sv = solver_for(timeout_ms)
         sv.add(*qf)
+        sv.add(*ants)
         sv.add(f == 0)
         if sv.check() != z3.unsat:
+            ob.info['identity'] = 'gave up: a divisor factor could not be shown non-zero'
             return False
     try:
-        num, _den = sympy.fraction(sympy.together(A - B))
-        if sympy.expand(num) != 0:
-            return False
+        expr = A - B
+        # (paths of one function often produce the very same identity: memoised on the expression text)
+        ck = ('plain', sympy.srepr(expr))
+        if _IDENTITY_CACHE.get(ck):
+            ob.info['identity'] = 'rational-function identity (same expression as an earlier obligation), %d divisor factors shown non-zero by z3' % len(seen)
+            return True
+        num, _den = sympy.fraction(sympy.together(expr))
+        if sympy.expand(num) == 0:
+            _IDENTITY_CACHE[ck] = True
+        else:
+            # equalities  indeterminate == term  among the hypotheses may be substituted (equals for equals)
+            subs = []
+            for h in ants + list(qf):
+                if z3.is_eq(h) and z3.is_real(h.arg(0)) and len(subs) < 24:
+                    try:
+                        n0 = len(divisors)
+                        l, r = conv(h.arg(0)), conv(h.arg(1))
+                        had_div = len(divisors) > n0
+                        del divisors[n0:]
+                        if had_div:
+                            continue        # (a division inside a hypothesis is not checked for a non-zero divisor: not used)
+                    except Abort:
+                        continue
+                    if isinstance(l, sympy.Symbol) and not r.has(l):
+                        subs.append((l, r))
+                    elif isinstance(r, sympy.Symbol) and not l.has(r):
+                        subs.append((r, l))
+            if not subs:
+                return False
+            for a_, b_ in subs:
+                expr = expr.subs(a_, b_)
+            ck = ('subs', sympy.srepr(expr))
+            if not _IDENTITY_CACHE.get(ck):
+                num, _den = sympy.fraction(sympy.together(expr))
+                if sympy.expand(num) != 0:
+                    return False
+                _IDENTITY_CACHE[ck] = True
+            ob.info['identity_substitutions'] = len(subs)
     except Exception:
         return False
     ob.info['identity'] = 'rational-function identity over %d indeterminates, %d divisor factors shown non-zero by z3' % (len(syms), len(seen))
@@ -1092,6 +1234,8 @@ def verify_contract(c, registry, overrides=None, timeout_ms=10000, log=None, wan
                         rec['model_error'] = repr(e)
                 if st == 'unknown':
                     rec['reason'] = ob.info.get('reason')
+                if ob.info.get('identity'):
+                    rec['identity'] = ob.info.get('identity')
                 rec['clause'] = ob.info.get('clause')
                 res.obligations.append(rec)
                 if st == 'refuted':
